@@ -423,3 +423,198 @@ Proof.
       * by apply pid_inv_del.
 Qed.
 End events.
+
+(* ------------------------------------------------------------------ runs and their traces *)
+Definition res_config (r : run_res) : config :=
+  match r with RQuiescent c | RError c _ _ | ROutOfFuel c => c end.
+
+Section traces.
+Context (md : exec_mode) (D : tenv) (F : list fundef).
+
+(* a run of the LTS with the events `exec_trace` records *)
+Inductive steps : config -> list event -> config -> Prop :=
+| steps_nil c : steps c [] c
+| steps_cons c ch c' tr c'' :
+    step md D F c ch = SStep c' -> steps c' tr c'' -> steps c (event_of md D c c' ch :: tr) c''.
+
+Lemma exec_trace_run fuel pick : forall c acc r tr,
+  exec_trace fuel pick md D F c acc = (r, tr) -> exists es, tr = rev acc ++ es /\ steps c es (res_config r).
+Proof.
+  induction fuel as [|f IH]; intros c acc r tr H; cbn in H.
+  - simplify_eq. exists []. split; [by rewrite app_nil_r|constructor].
+  - destruct (enabled md D F c) as [|e0 es] eqn:Hen.
+    { simplify_eq. exists []. split; [by rewrite app_nil_r|constructor]. }
+    destruct (step md D F c _) as [|c'|who w] eqn:Hst.
+    + simplify_eq. exists []. split; [by rewrite app_nil_r|constructor].
+    + apply IH in H as (es' & -> & Hs). eexists (_ :: es'). split; [cbn; by rewrite <- app_assoc|].
+      econstructor; eauto.
+    + simplify_eq. exists []. split; [by rewrite app_nil_r|constructor].
+Qed.
+
+(* exec_trace is exec_run plus the recording *)
+Lemma exec_trace_exec_run fuel pick : forall c acc,
+  fst (exec_trace fuel pick md D F c acc) = exec_run fuel pick md D F c.
+Proof.
+  induction fuel as [|f IH]; intros c acc; cbn; [done|].
+  destruct (enabled md D F c); [done|]. destruct (step md D F c _); auto.
+Qed.
+
+Lemma steps_app c tr1 c1 tr2 c2 : steps c tr1 c1 -> steps c1 tr2 c2 -> steps c (tr1 ++ tr2) c2.
+Proof. induction 1; cbn; [done|]. intros. econstructor; eauto. Qed.
+
+Lemma steps_snoc c tr c1 ch c2 :
+  steps c tr c1 -> step md D F c1 ch = SStep c2 -> steps c (tr ++ [event_of md D c1 c2 ch]) c2.
+Proof. intros H1 H2. eapply steps_app; [done|]. econstructor; [done|constructor]. Qed.
+
+(* ---------------------------------------------------------------- the invariant along a run *)
+(* identifiers used so far: those of the start configuration and those spawned by the history *)
+Definition used (U0 : pid -> Prop) (h : list event) (q : pid) : Prop :=
+  U0 q \/ exists e, e ∈ h /\ q ∈ ev_spawned e.
+(* the last event of the history that touches channel k put a message on it *)
+Definition last_touch_send (h : list event) (k : cid) : Prop :=
+  exists j e, h !! j = Some e /\ ev_send e = Some k /\
+    forall j' e', (j < j')%nat -> h !! j' = Some e' -> ev_send e' <> Some k /\ ev_recv e' <> Some k.
+Definition buf_inv (h : list event) (c : config) : Prop :=
+  forall k m, buf c k = Some m -> last_touch_send h k.
+Definition tinv (U0 : pid -> Prop) (h : list event) (c : config) : Prop :=
+  pid_inv (used U0 h) c /\ buf_inv h c.
+
+(* what holds of an event e taken in configuration c after history h *)
+Definition ev_ok (U0 : pid -> Prop) (h : list event) (c : config) (e : event) : Prop :=
+  (forall q, q ∈ ev_pids e -> used U0 h q) /\
+  (forall q, q ∈ ev_spawned e -> ~ used U0 h q) /\
+  (forall k, ev_recv e = Some k -> last_touch_send h k \/ closed_empty c k).
+
+Lemma used_snoc U0 h e q : used U0 (h ++ [e]) q <-> used U0 h q \/ q ∈ ev_spawned e.
+Proof.
+  unfold used. split.
+  - intros [?|(e' & He' & Hq)]; [by left; left|]. apply elem_of_app in He' as [?| ->%elem_of_list_singleton]; [|by right].
+    left; right; eauto.
+  - intros [[?|(e' & He' & Hq)]|Hq]; [by left| |].
+    + right. exists e'. split; [apply elem_of_app; by left|done].
+    + right. exists e. split; [apply elem_of_app; right; by apply elem_of_list_singleton|done].
+Qed.
+
+Lemma step_tinv U0 h c ch c' : tinv U0 h c -> step md D F c ch = SStep c' ->
+  ev_ok U0 h c (event_of md D c c' ch) /\ tinv U0 (h ++ [event_of md D c c' ch]) c'.
+Proof.
+  intros [Hpid Hbuf] Hstep.
+  destruct (step_facts D F md c ch c' Hstep) as (Hp & _ & Hb & Hr & HU).
+  destruct (HU _ Hpid) as [Hnew Hpid'].
+  split; [split_and!|split].
+  - intros q Hq. apply Hpid, Hp, Hq.
+  - done.
+  - intros k Hk. apply Hr in Hk as [[m Hm]|?]; [left; by eapply Hbuf|by right].
+  - eapply pid_inv_ext; [|exact Hpid']. intros q. by rewrite used_snoc.
+  - intros k m Hm. set (e := event_of md D c c' ch) in *.
+    destruct (decide (ev_send e = Some k)) as [Hs|Hs].
+    + exists (length h), e. split_and!; [by rewrite lookup_app_r, Nat.sub_diag| done|].
+      intros j' e' Hlt Hj'. apply lookup_lt_Some in Hj'. rewrite app_length in Hj'. cbn in Hj'. lia.
+    + apply Hb in Hm as [?|[Hm Hnr]]; [done|].
+      destruct (Hbuf _ _ Hm) as (j & ej & Hj & Hsj & Hlater). exists j, ej. split_and!; [|done|].
+      { apply lookup_app_Some. by left. }
+      intros j' e' Hlt Hj'. apply lookup_app_Some in Hj' as [Hj'|[Hle Hj']]; [by eapply Hlater|].
+      destruct (j' - length h)%nat eqn:Hd; cbn in Hj'; [|by destruct n]. by simplify_eq.
+Qed.
+
+Lemma steps_ok U0 c tr cf : steps c tr cf -> forall h, tinv U0 h c ->
+  (forall i e, tr !! i = Some e -> exists ci, steps c (take i tr) ci /\ ev_ok U0 (h ++ take i tr) ci e) /\
+  tinv U0 (h ++ tr) cf.
+Proof.
+  induction 1 as [c|c ch c' tr c'' Hstep Hsteps IH]; intros h Hinv.
+  - split; [done|by rewrite app_nil_r].
+  - destruct (step_tinv U0 h c ch c' Hinv Hstep) as [Hok Hinv'].
+    destruct (IH _ Hinv') as [IH1 IH2]. split.
+    + intros [|i] e He; cbn in He.
+      * simplify_eq. exists c. cbn. rewrite app_nil_r. split; [constructor|done].
+      * destruct (IH1 _ _ He) as (ci & Hci & Hoki). exists ci. cbn. split; [by econstructor|].
+        by rewrite <- app_assoc in Hoki.
+    + by rewrite <- app_assoc in IH2.
+Qed.
+
+(* ---------------------------------------------------------------- the start configurations *)
+(* all buffers empty, and the counter of every process is above the index of every live
+   descendant.  `init_config` of every program satisfies it (init_causal_inv below). *)
+Definition causal_inv (c : config) : Prop :=
+  (forall k, buf c k = None) /\
+  (forall q pr n rest, procs c !! q = Some pr -> is_Some (procs c !! (q ++ n :: rest)) -> (n < pr_next pr)%nat).
+
+Definition live0 (c : config) (q : pid) : Prop := is_Some (procs c !! q).
+
+Lemma causal_inv_tinv c : causal_inv c -> tinv (live0 c) [] c.
+Proof.
+  intros [Hb Hp]. split.
+  - split.
+    + intros q Hq. by left.
+    + intros q pr n rest Hq [Hu|(e & He & _)]; [by eapply Hp|]. by apply elem_of_nil in He.
+  - intros k m Hm. by rewrite Hb in Hm.
+Qed.
+
+Lemma used_take_mono U0 tr i j q : (i <= j)%nat -> used U0 (take i tr) q -> used U0 (take j tr) q.
+Proof.
+  intros Hij [?|(e & He & Hq)]; [by left|]. right. exists e. split; [|done].
+  apply elem_of_list_lookup in He as [n Hn]. apply lookup_take_Some in Hn as [Hn Hlt].
+  apply elem_of_list_lookup. exists n. apply lookup_take_Some. split; [done|lia].
+Qed.
+
+Section from_start.
+Context (c0 : config) (tr : list event) (cf : config).
+Context (Hrun : steps c0 tr cf) (Hinv : causal_inv c0).
+
+Lemma event_ok i e : tr !! i = Some e -> exists ci, steps c0 (take i tr) ci /\ ev_ok (live0 c0) (take i tr) ci e.
+Proof.
+  intros He. destruct (steps_ok (live0 c0) c0 tr cf Hrun [] (causal_inv_tinv c0 Hinv)) as [H _].
+  exact (H i e He).
+Qed.
+
+(* every receive has its send: the latest earlier event touching k is a send on k *)
+Theorem recv_has_send i e k : tr !! i = Some e -> ev_recv e = Some k ->
+  (exists j ej, (j < i)%nat /\ tr !! j = Some ej /\ ev_send ej = Some k /\
+     forall j' e', (j < j' < i)%nat -> tr !! j' = Some e' -> ev_send e' <> Some k /\ ev_recv e' <> Some k) \/
+  (exists ci, steps c0 (take i tr) ci /\ closed_empty ci k).
+Proof.
+  intros He Hk. destruct (event_ok i e He) as (ci & Hci & _ & _ & Hr).
+  destruct (Hr k Hk) as [(j & ej & Hj & Hs & Hlater)|Hcl]; [left|right; eauto].
+  apply lookup_take_Some in Hj as [Hj Hlt]. exists j, ej. split_and!; try done.
+  intros j' e' [H1 H2] Hj'. eapply Hlater; [done|]. apply lookup_take_Some. split; [done|lia].
+Qed.
+
+(* every acting process was there at the start or was spawned by an earlier event *)
+Theorem actor_known i e q : tr !! i = Some e -> q ∈ ev_pids e ->
+  is_Some (procs c0 !! q) \/ exists j ej, (j < i)%nat /\ tr !! j = Some ej /\ q ∈ ev_spawned ej.
+Proof.
+  intros He Hq. destruct (event_ok i e He) as (ci & Hci & Hp & _ & _).
+  destruct (Hp q Hq) as [?|(ej & Hej & Hs)]; [by left|right].
+  apply elem_of_list_lookup in Hej as [j Hj]. apply lookup_take_Some in Hj as [Hj Hlt]. eauto.
+Qed.
+
+Lemma spawned_fresh i e q : tr !! i = Some e -> q ∈ ev_spawned e -> ~ used (live0 c0) (take i tr) q.
+Proof. intros He Hq. destruct (event_ok i e He) as (ci & Hci & _ & Hs & _). by apply Hs. Qed.
+
+(* an event of a process comes strictly after the event that spawned it *)
+Theorem spawn_before j ej i ei q : tr !! j = Some ej -> tr !! i = Some ei ->
+  q ∈ ev_spawned ej -> q ∈ ev_pids ei -> (j < i)%nat.
+Proof.
+  intros Hj Hi Hs Hp. destruct (decide (j < i)%nat) as [|Hge]; [done|]. exfalso.
+  apply (spawned_fresh j ej q Hj Hs). apply (used_take_mono _ _ i j); [lia|].
+  destruct (event_ok i ei Hi) as (ci & _ & Hpi & _ & _). by apply Hpi.
+Qed.
+
+(* identifiers are never reused: a process is spawned at most once, and never one of the start *)
+Theorem spawned_once j ej i ei q : tr !! j = Some ej -> tr !! i = Some ei ->
+  q ∈ ev_spawned ej -> q ∈ ev_spawned ei -> j = i.
+Proof.
+  assert (forall j ej i ei, tr !! j = Some ej -> tr !! i = Some ei -> q ∈ ev_spawned ej -> q ∈ ev_spawned ei -> ~ (j < i)%nat) as H.
+  { clear j ej i ei. intros j ej i ei Hj Hi Hsj Hsi Hlt. apply (spawned_fresh i ei q Hi Hsi). right. exists ej. split; [|done].
+    apply elem_of_list_lookup. exists j. apply lookup_take_Some. done. }
+  intros Hj Hi Hsj Hsi. destruct (lt_eq_lt_dec j i) as [[Hlt|]|Hlt]; [|done|].
+  - by destruct (H j ej i ei).
+  - by destruct (H i ei j ej).
+Qed.
+
+Theorem spawned_new i e q : tr !! i = Some e -> q ∈ ev_spawned e -> procs c0 !! q = None.
+Proof.
+  intros He Hq. destruct (procs c0 !! q) eqn:Hc; [|done]. destruct (spawned_fresh i e q He Hq). left. unfold live0. by rewrite Hc.
+Qed.
+End from_start.
+End traces.
